@@ -4,7 +4,7 @@ SPEC = dict(
     driver='c11_history',
     extra=['ref/ref.c', 'ref/ref_sig.c', 'ref/ref_pdu.c', 'ref/ref_pki.c', 'simnet.c'],
     rule='Exhaustive enumeration of operation histories on ONE shared KSI_CTX. A history = parse(s0), s0 in 4 canonical reference-built signatures (no calendar chain / '
-         'calendar chain / + publication record / + authentication record signed with the test PKI; first level corrections 3, 7, 3, 3), followed by EVERY applicable '
+         'calendar chain / + publication record / + authentication record signed with the test PKI; first level corrections 1, 4, 3, 3 - a successful prepend uses up the whole correction of the first two), followed by EVERY applicable '
          'sequence of at most L operations over a 261-letter alphabet (an operation is applicable when the slot it names holds a live signature; at most 3 live '
          'signatures, a new one replaces the oldest): parse(s) x4; parse(garbage) x3 (truncated, wrong outer tag, inconsistent chain index); log level none / debug '
          '(discarding callback); per slot: clone; serialize; verify(policy in {internal, user-publication, publications-file, key-based, calendar-based, general} x '
